@@ -180,32 +180,37 @@ def preprocess_tag_block_spacing(text: str) -> str:
         return text
 
     # Lines inside a fenced code block are code, whatever they look like.
-    open_fence: tuple[str, int] | None = None
+    # (fence character, fence length, width of the container prefix before the opening fence)
+    open_fence: tuple[str, int, int] | None = None
 
     for i, line in enumerate(lines):
-        # A fence may stand after list markers and quote markers (`- ```py`, `> ~~~`), and its
-        # closing fence is then indented. (Erring on the side of "this is code" is harmless:
-        # code is left alone.)
+        # A fence may stand after list markers and quote markers (`- ```py`, `> ~~~`); its
+        # closing fence is then indented by up to the width of that prefix plus three.
         if open_fence is None:
             fence_match = re.match(
-                r"^(?:[ \t]*(?:>|[-*+]|\d{1,9}[.)])(?:[ \t]+|$))*[ \t]*(`{3,}|~{3,})(.*)$", line
+                r"^((?:[ \t]*(?:>|[-*+]|\d{1,9}[.)])(?:[ \t]+|$))*[ \t]*)(`{3,}|~{3,})(.*)$", line
             )
         else:
-            fence_match = re.match(r"^[ \t>]*(`{3,}|~{3,})(.*)$", line)
+            fence_match = re.match(r"^([ \t>]*)(`{3,}|~{3,})(.*)$", line)
         if open_fence is not None:
             if (
                 fence_match
-                and fence_match.group(1)[0] == open_fence[0]
-                and len(fence_match.group(1)) >= open_fence[1]
-                and not fence_match.group(2).strip()
+                and fence_match.group(2)[0] == open_fence[0]
+                and len(fence_match.group(2)) >= open_fence[1]
+                and not fence_match.group(3).strip()
+                and len(fence_match.group(1).expandtabs(4)) <= open_fence[2] + 3
             ):
                 open_fence = None
             result_lines.append(line)
             continue
-        if fence_match and not (fence_match.group(1)[0] == "`" and "`" in fence_match.group(2)):
-            open_fence = (fence_match.group(1)[0], len(fence_match.group(1)))
-            result_lines.append(line)
-            continue
+        if fence_match and not (fence_match.group(2)[0] == "`" and "`" in fence_match.group(3)):
+            prefix = fence_match.group(1)
+            marker_width = len(prefix.rstrip().expandtabs(4)) + 1 if prefix.strip() else 0
+            # (top level: a fence is indented by at most three spaces; four make it code)
+            if prefix.strip() or len(prefix.expandtabs(4)) <= 3:
+                open_fence = (fence_match.group(2)[0], len(fence_match.group(2)), marker_width)
+                result_lines.append(line)
+                continue
 
         # Check if we need to add a blank line BEFORE this line
         if i > 0:
